@@ -2,7 +2,7 @@
    (statements; proofs in SpecLaws.v). *)
 From Coq Require Import List NArith ZArith.
 Import ListNotations.
-From PP Require Import Base Syntax Spec SpecMono SpecLaws.
+From PP Require Import Base Syntax Spec SpecMono SpecLaws Interp InterpProof.
 
 (* trivia is matched after every element of a sequence that has a following element (whether
    or not that element then consumes anything) and nowhere else in the sequence *)
@@ -89,6 +89,28 @@ Proof. eexists. vm_compute. reflexivity. Qed.
 Example atomic_rejects : parse g_ws 40 6 [97; 32; 98]%N 0 = Fail {| t_pos := 1; t_exp := [6%N]; t_unexp := [] |}.
 Proof. vm_compute. reflexivity. Qed.
 
+(* ---- the interpreter itself (model Interp.v of src/pest/grammar/**.parse + state.py, tied to mode I
+   on every run: trees, failure positions and expected sets) REFINES the reference semantics:
+   whenever it finishes, the reference semantics has the same outcome — same tree, same final
+   position / stack / tags, same furthest-failure record, same "undefined rule" — it never
+   reaches an inconsistent state (pop of an empty checkpoint or rule stack), and it returns with
+   every checkpoint, saved atomic depth and rule frame released. Hypothesis: a silent rule is
+   not `$` or `!` (grammar text allows one modifier per rule; necessity: InterpProof.
+   silent_compound_differs). Proof: InterpProof.v (simulation by induction on fuel). *)
+Theorem C04_interpreter_refines_semantics : forall g,
+  (forall n r, lookup g n = Some r -> r_silent r = true -> r_kind r = KNormal \/ r_kind r = KAtomic) ->
+  forall f rule input k,
+    match iparse g f rule input k with
+    | IOk true s' ps  => (exists f', parse g f' rule input k = Ok (abs_st s') ps)
+                         /\ i_saved s' = [] /\ i_dcps s' = [] /\ i_rules s' = [] /\ i_depth s' = 0
+    | IOk false s' _  => (exists f', parse g f' rule input k = Fail (i_trk s'))
+                         /\ i_saved s' = [] /\ i_dcps s' = [] /\ i_rules s' = []
+    | IUndef          => exists f', parse g f' rule input k = Err
+    | ICrash          => False
+    | IFuel           => True
+    end.
+Proof. exact iparse_refines_one_modifier. Qed.
+
 Print Assumptions C04_seq_trivia_placement.
 Print Assumptions C04_seq_last_no_trivia.
 Print Assumptions C04_star_trivia_given_back.
@@ -102,3 +124,4 @@ Print Assumptions C04_no_trivia_rules.
 Print Assumptions C04_rule_atomicity.
 Print Assumptions C04_atomic_hides.
 Print Assumptions C04_compound_nonatomic_visible.
+Print Assumptions C04_interpreter_refines_semantics.
